@@ -140,6 +140,20 @@ def s_key_cmp(ex, st, func, args, ty):
     if op == 'cmp':
         o = st.new_obj(st.fresh_name('ord'), 'Ordering'); st.heap[o]['discr'] = BV(z3.If(ra < rb, z3.BitVecVal(-1, 64), z3.If(ra == rb, z3.BitVecVal(0, 64), z3.BitVecVal(1, 64))), True); return [(st, ObjV(o))]
     return [(st, BoolV({'lt': ra < rb, 'le': ra <= rb, 'gt': ra > rb, 'ge': ra >= rb, 'eq': ra == rb, 'ne': ra != rb}[op]))]
+def s_opt_closure_sorter(ex, st, func, args, ty):
+    """Option::map / and_then / is_some_and / map_or with the real closure"""
+    from .scen_kernels2 import closure_body, run_closure
+    o = obj(st, args[0]); d = ex.discr(st, o).t; out = []
+    kind = 'map_or' if '::map_or::<' in func else 'is_some_and' if '::is_some_and::<' in func else 'and_then' if '::and_then::<' in func else 'map'
+    clo = args[2] if kind == 'map_or' else args[1]
+    if ex.feasible(st, d == 0):
+        s2 = st.clone(); s2.pc.append(d == 0)
+        out.append((s2, args[1] if kind == 'map_or' else BoolV(z3.BoolVal(False)) if kind == 'is_some_and' else none(s2)))
+    if ex.feasible(st, d == 1):
+        st.pc.append(d == 1)
+        for s2, r in run_closure(ex, st, closure_body(ex, func), clo, [ex.load(st, o.oid, ('f', 'Some', 0), 'opaque')]):
+            out.append((s2, some(s2, r) if kind == 'map' else r))
+    return out
 def s_map_len(ex, st, func, args, ty):
     m = obj(st, args[0]); return [(st, BV(bv64(len(st.heap[m.oid].get('model', ())))))]
 
@@ -166,7 +180,8 @@ SUMM = [
     (r'BTreeMap::<.*>::pop_last$', s_pop_last), (r'BTreeMap::<.*>::pop_first$', s_pop_first),
     (r'OccupiedEntry::<.*>::get_mut$|OccupiedEntry::<.*>::into_mut$', s_occ_get_mut), (r'OccupiedEntry::<.*>::remove$', s_occ_remove),
     (r'BTreeMap::<.*>::keys$', s_keys), (r'as DoubleEndedIterator>::next_back$', s_iter_next_back), (r'BTreeMap::<.*>::first_key_value$', s_first_kv), (r'BTreeMap::<.*>::last_key_value$', s_last_kv),
-    (r'^<&?JsonValue as PartialOrd>::(lt|le|gt|ge)$|^<&?JsonValue as Ord>::cmp$|^<&?JsonValue as PartialEq>::(eq|ne)$', s_key_cmp), (r'BTreeMap::<.*>::len$', s_map_len),
+    (r'^<&?JsonValue as PartialOrd(<&?JsonValue>)?>::(lt|le|gt|ge)$|^<&?JsonValue as Ord>::cmp$|^<&?JsonValue as PartialEq(<&?JsonValue>)?>::(eq|ne)$', s_key_cmp),
+    (r'Option::<.*>::map::<|Option::<.*>::and_then::<|Option::<.*>::is_some_and::<|Option::<.*>::map_or::<', s_opt_closure_sorter), (r'BTreeMap::<.*>::len$', s_map_len),
     (r'std::mem::take::<BTreeMap<', s_map_take), (r'BTreeMap::<.*>::into_values$', s_into_values), (r'BTreeMap::<.*>::values$', s_values),
     (r'^Box::<.*(IntoValues|Rev|Iter|ValuesMut|Values|IntoIter).*>::new$', s_identity),
     (r'BTreeMap::<.*>::values_mut$', s_values_mut), (r'as Iterator>::rev$|as DoubleEndedIterator>::rev$', s_iter_rev),
